@@ -10,6 +10,13 @@
 //! characters of the generator's panic message.  ntok: number of token trees emitted (nested groups included).
 //! A trailing `pgen=<ok|panic>` says what pest's own generator (`pest_generator::derive_parser`) does with
 //! the same grammar (information only: it tells "pest_meta accepts" apart from "pest_derive accepts").
+//!
+//! Validator mirror (tie `validator-mirror`): `vfront=<ok|err|na>` says whether the pairs convert to
+//! `ParserRule`s (front.rs = pest_meta's private `consume_rules_with_spans`, copied verbatim);
+//! `vreal=<hex|->` are the messages of the REAL `pest_meta::validator::validate_ast` on exactly those rules and
+//! `vast=<hex>` is the S-expression `(vgrammar (rule <name> <kind> <expr>) ...)` of the same rules (the syntax of
+//! `harness/tools/src/bin/dump_ast.rs`, raw expressions) that the Lean mirror `pestValidate` is run on.
+mod front;
 use quote::quote;
 use std::io::{BufRead, Write};
 use std::panic::{catch_unwind, AssertUnwindSafe};
@@ -38,6 +45,45 @@ fn payload(p: Box<dyn std::any::Any + Send>) -> String {
 }
 fn msgs(es: &[pest::error::Error<pest_meta::parser::Rule>]) -> String {
     es.iter().map(|e| e.variant.message().to_string()).collect::<Vec<_>>().join("\n")
+}
+
+fn cp(s: &str) -> u32 {
+    s.chars().next().map_or(0, |c| c as u32)
+}
+/// The un-spanned expression in dump_ast's syntax.
+fn vexpr(e: &pest_meta::parser::ParserExpr) -> String {
+    use pest_meta::parser::ParserExpr as E;
+    match e {
+        E::Str(s) => format!("(str {})", hex(s)),
+        E::Insens(s) => format!("(insens {})", hex(s)),
+        E::Range(a, b) => format!("(range {} {})", cp(a), cp(b)),
+        E::Ident(n) => format!("(ident {})", n),
+        E::PeekSlice(a, b) => format!("(peekslice {} {})", a, b.map_or("-".to_string(), |x| x.to_string())),
+        E::PosPred(e) => format!("(pos {})", vexpr(&e.expr)),
+        E::NegPred(e) => format!("(neg {})", vexpr(&e.expr)),
+        E::Seq(a, b) => format!("(seq {} {})", vexpr(&a.expr), vexpr(&b.expr)),
+        E::Choice(a, b) => format!("(choice {} {})", vexpr(&a.expr), vexpr(&b.expr)),
+        E::Opt(e) => format!("(opt {})", vexpr(&e.expr)),
+        E::Rep(e) => format!("(rep {})", vexpr(&e.expr)),
+        E::RepOnce(e) => format!("(reponce {})", vexpr(&e.expr)),
+        E::RepExact(e, n) => format!("(repexact {} {})", vexpr(&e.expr), n),
+        E::RepMin(e, n) => format!("(repmin {} {})", vexpr(&e.expr), n),
+        E::RepMax(e, n) => format!("(repmax {} {})", vexpr(&e.expr), n),
+        E::RepMinMax(e, n, m) => format!("(repminmax {} {} {})", vexpr(&e.expr), n, m),
+        E::Push(e) => format!("(push {})", vexpr(&e.expr)),
+        #[allow(unreachable_patterns)]
+        _ => "(unsupported)".into(),
+    }
+}
+fn vkind(t: pest_meta::ast::RuleType) -> &'static str {
+    use pest_meta::ast::RuleType as T;
+    match t {
+        T::Normal => "normal",
+        T::Silent => "silent",
+        T::Atomic => "atomic",
+        T::CompoundAtomic => "compound",
+        T::NonAtomic => "nonatomic",
+    }
 }
 
 /// All token trees of the expansion, nested groups included.
@@ -113,6 +159,29 @@ fn main() {
             Ok(t) => t,
             Err(p) => ("err", "na", "na", format!("panic in parse: {}", payload(p)), String::new()),
         };
+        // (c) validator mirror: the real validate_ast on the rules built by front.rs, and those rules as an S-expression
+        let t = text.clone();
+        let (vfront, vreal, vast) = match catch_unwind(AssertUnwindSafe(|| {
+            use pest_meta::parser::{self, Rule};
+            match parser::parse(Rule::grammar_rules, &t) {
+                Err(_) => ("na", String::new(), String::new()),
+                Ok(pairs) => match front::consume_rules_with_spans(pairs) {
+                    Err(es) => ("err", msgs(&es), String::new()),
+                    Ok(rules) => {
+                        let es = pest_meta::validator::validate_ast(&rules);
+                        let mut s = String::from("(vgrammar");
+                        for r in &rules {
+                            s.push_str(&format!(" (rule {} {} {})", r.name, vkind(r.ty), vexpr(&r.node.expr)));
+                        }
+                        s.push(')');
+                        ("ok", msgs(&es), s)
+                    }
+                },
+            }
+        })) {
+            Ok(t) => t,
+            Err(p) => ("err", format!("panic in consume_rules: {}", payload(p)), String::new()),
+        };
         let t = text.clone();
         let full = match catch_unwind(AssertUnwindSafe(move || pest_meta::parse_and_optimize(&t).is_ok())) {
             Ok(true) => "ok",
@@ -135,8 +204,8 @@ fn main() {
         };
         writeln!(
             out,
-            "{}\tderive={}\tparse={}\tconsume={}\tpairs={}\tfull={}\tvmsg={}\tpmsg={}\tdmsg={}\tntok={}\tpgen={}",
-            gid, derive, parse, consume, pairs_v, full, hex(&vmsg), hex(&pmsg), hex(&dmsg), ntok, pgen
+            "{}\tderive={}\tparse={}\tconsume={}\tpairs={}\tfull={}\tvmsg={}\tpmsg={}\tdmsg={}\tntok={}\tpgen={}\tvfront={}\tvreal={}\tvast={}",
+            gid, derive, parse, consume, pairs_v, full, hex(&vmsg), hex(&pmsg), hex(&dmsg), ntok, pgen, vfront, hex(&vreal), hex(&vast)
         )
         .unwrap();
         out.flush().unwrap();
